@@ -4,6 +4,7 @@
 import Rsactor.Inv.End
 import Rsactor.Inv.Rej
 import Rsactor.Ties.reply_wait_shape
+import Rsactor.Ties.ask_join_shape
 import Rsactor.Ties.send_paths_shape
 import Rsactor.Ties.handle_message_shape
 import Rsactor.Ties.lifecycle_arms
@@ -128,6 +129,7 @@ example : ∃ s, run? (init 1 {})
 
 /-! ### ties to the source: shape lemmas about the tables regenerated from /repo on every run -/
 -- @tie Rsactor.Ties.reply_wait_shape
+-- @tie Rsactor.Ties.ask_join_shape
 -- @tie Rsactor.Ties.send_paths_shape
 -- @tie Rsactor.Ties.handle_message_shape
 -- @tie Rsactor.Ties.lifecycle_arms
